@@ -41,6 +41,12 @@ func (c *vclock) hasPending() bool {
 func init() {
 	// the local time zone is UTC (the zero Location): initLocal would read TZ and /etc/localtime
 	externals["time.initLocal"] = func(fr *frame, args []value) value { return nil }
+	// markers and per-goroutine FIPS service indicator of the crypto packages (assembly / runtime linknames)
+	externals["crypto/internal/boring/sig.StandardCrypto"] = func(fr *frame, args []value) value { return nil }
+	externals["crypto/internal/boring/sig.BoringCrypto"] = func(fr *frame, args []value) value { return nil }
+	externals["crypto/internal/boring/sig.FIPSOnly"] = func(fr *frame, args []value) value { return nil }
+	externals["crypto/internal/fips140.getIndicator"] = func(fr *frame, args []value) value { return uint8(0) }
+	externals["crypto/internal/fips140.setIndicator"] = func(fr *frame, args []value) value { return nil }
 	externals["time.Now"] = func(fr *frame, args []value) value { return fr.i.timeValue(fr.i.clock.now) }
 	externals["time.runtimeNano"] = func(fr *frame, args []value) value { return fr.i.clock.now }
 	externals["time.now"] = func(fr *frame, args []value) value {
